@@ -25,7 +25,7 @@ histogram = c05.histogram
 
 
 def gen(rng, tier):
-    return c05.gen(rng, tier, emphasis="c06", quick=350, thorough=10000)
+    return c05.gen(rng, tier, emphasis="c06", quick=250, thorough=10000)
 
 
 def nontrivial(case, inp, obs):
